@@ -1122,50 +1122,81 @@ theorem Inv.weaken {s0 t u : Store} {y : Ref} {v : Bool} (h : Inv t u y v) (he :
     · exact .inl h'
     · exact .inr (Nat.le_trans he.dlen h')
 
+/-- cells allocated later do not disturb the ownership invariant of an existing receiver -/
+theorem Inv.extend {s0 t u : Store} {y : Ref} {v : Bool} (h : Inv s0 t y v) (he : Ext t u) (hy : y < t.objs.length) :
+    Inv s0 u y v where
+  ext := h.ext.trans he
+  fresh := h.fresh
+  flag := by rw [he.obj hy]; exact h.flag
+  own a r hr := by rw [he.obj hy] at hr ⊢; exact h.own a r hr
+
+/-- the callee of a discarded delegation (`lostDelegate`, not in place) only allocates -/
+theorem lostDelegate_ext (f : Abs → Int) (u : Store) (y : Ref) : Ext u (call [.wr .nodes f] u y false).1 :=
+  call_ext _ u y false (by simp [writesOwn, Stmt.needsOwnGraph])
+
 theorem runTrace_afterGuard (f : Abs → Int) (s : Store) (x : Ref) : ∀ (t : List Ev) (st : Store × Ref) (v : Bool),
-    Inv s st.1 st.2 v → st.2 < st.1.objs.length → t.contains .writeIn = false →
+    Inv s st.1 st.2 v → st.2 < st.1.objs.length → t.contains .writeIn = false → t.contains .retIn = false →
     Ext s (t.foldl (runEv f x false) st).1 := by
   intro t; induction t with
-  | nil => intro st v h _ _; exact h.ext
+  | nil => intro st v h _ _ _; exact h.ext
   | cons e t ih =>
-    intro st v h hy hc
+    intro st v h hy hc hr
     have hc' : t.contains .writeIn = false := by
       simp only [List.contains_cons, Bool.or_eq_false_iff] at hc; exact hc.2
+    have hr' : t.contains .retIn = false := by
+      simp only [List.contains_cons, Bool.or_eq_false_iff] at hr; exact hr.2
     simp only [List.foldl_cons]
     cases e with
+    | retIn => simp at hr
+    | lostDelegate =>
+      simp only [runEv]
+      have he := lostDelegate_ext f st.1 st.2
+      exact ih _ v (h.extend he hy) (Nat.lt_of_lt_of_le hy he.olen) hc' hr'
     | guard =>
       simp only [runEv, Bool.false_eq_true, if_false]
-      refine ih _ true ?_ ?_ hc'
+      refine ih _ true ?_ ?_ hc' hr'
       · rw [copyObj_snd]; exact (copyObj_inv st.1 st.2 false).weaken h.ext
       · rw [copyObj_snd, copyObj_objs_length]; exact Nat.lt_succ_self _
     | write =>
       simp only [runEv]
       obtain ⟨h1, h2⟩ := step_inv hy h (.wr .nodes f) (by simp [Stmt.needsOwnGraph])
-      exact ih _ _ h1 h2 hc'
+      exact ih _ _ h1 h2 hc' hr'
     | writeIn => simp at hc
-    | delegate => exact ih st v h hy hc'
-    | branch => exact ih st v h hy hc'
+    | delegate => exact ih st v h hy hc' hr'
+    | branch => exact ih st v h hy hc' hr'
 
-theorem runTrace_ext (f : Abs → Int) (s : Store) (x : Ref) : ∀ (t : List Ev),
-    noWriteBeforeGuard t = true → t.contains .writeIn = false → Ext s (runTrace f t s x false).1 := by
-  unfold runTrace
+/-- before the guard: the name still holds the input, the store `u` so far only grew -/
+theorem runTrace_beforeGuard (f : Abs → Int) (s : Store) (x : Ref) : ∀ (t : List Ev) (u : Store), Ext s u →
+    noWriteBeforeGuard t = true → t.contains .writeIn = false → t.contains .retIn = false →
+    Ext s (t.foldl (runEv f x false) (u, x)).1 := by
   intro t; induction t with
-  | nil => intro _ _; exact Ext.refl s
+  | nil => intro u hu _ _ _; exact hu
   | cons e t ih =>
-    intro h1 hc
+    intro u hu h1 hc hr
     have hc' : t.contains .writeIn = false := by
       simp only [List.contains_cons, Bool.or_eq_false_iff] at hc; exact hc.2
+    have hr' : t.contains .retIn = false := by
+      simp only [List.contains_cons, Bool.or_eq_false_iff] at hr; exact hr.2
     simp only [List.foldl_cons]
     cases e with
     | guard =>
       simp only [runEv, Bool.false_eq_true, if_false]
-      refine runTrace_afterGuard f s x t _ true ?_ ?_ hc'
-      · rw [copyObj_snd]; exact copyObj_inv s x false
+      refine runTrace_afterGuard f s x t _ true ?_ ?_ hc' hr'
+      · rw [copyObj_snd]; exact (copyObj_inv u x false).weaken hu
       · rw [copyObj_snd, copyObj_objs_length]; exact Nat.lt_succ_self _
     | write => simp [noWriteBeforeGuard] at h1
     | writeIn => simp at hc
-    | delegate => exact ih (by simpa [noWriteBeforeGuard] using h1) hc'
-    | branch => exact ih (by simpa [noWriteBeforeGuard] using h1) hc'
+    | delegate => exact ih u hu (by simpa [noWriteBeforeGuard] using h1) hc' hr'
+    | branch => exact ih u hu (by simpa [noWriteBeforeGuard] using h1) hc' hr'
+    | retIn => simp at hr
+    | lostDelegate =>
+      simp only [runEv]
+      exact ih _ (hu.trans (lostDelegate_ext f u x)) (by simpa [noWriteBeforeGuard] using h1) hc' hr'
+
+theorem runTrace_ext (f : Abs → Int) (s : Store) (x : Ref) (t : List Ev)
+    (h1 : noWriteBeforeGuard t = true) (hc : t.contains .writeIn = false) (hr : t.contains .retIn = false) :
+    Ext s (runTrace f t s x false).1 :=
+  runTrace_beforeGuard f s x t s (Ext.refl s) h1 hc hr
 
 /-- a `bump` write through any object never decreases any cell, and keeps it allocated -/
 theorem step_bump_mono (u : Store) (o r : Ref) (hr : r < u.data.length) :
@@ -1193,6 +1224,11 @@ theorem runEv_mono (x r : Ref) (st : Store × Ref) (e : Ev) (hr : r < st.1.data.
   | writeIn => exact step_bump_mono st.1 x r hr
   | delegate => exact ⟨hr, Int.le_refl _⟩
   | branch => exact ⟨hr, Int.le_refl _⟩
+  | retIn => exact ⟨hr, Int.le_refl _⟩
+  | lostDelegate =>
+    simp only [runEv]
+    have he := lostDelegate_ext bump st.1 st.2
+    exact ⟨Nat.lt_of_lt_of_le hr he.dlen, by rw [he.rd hr]; exact Int.le_refl _⟩
 
 theorem runTrace_mono (x r : Ref) : ∀ (t : List Ev) (st : Store × Ref), r < st.1.data.length →
     st.1.rd r ≤ (t.foldl (runEv bump x false) st).1.rd r := by
@@ -1211,18 +1247,23 @@ theorem step_bump_own {u : Store} {o r : Ref} (hn : (u.obj o).nodes = some r) (h
   refine ⟨?_, rfl, by simpa using hr⟩
   rw [rd_wr_same hr]; simp [bump, Store.abs, Store.absObj, hn]
 
+theorem valid_of_nodes {u : Store} {x r : Ref} (h : (u.obj x).nodes = some r) : x < u.objs.length := by
+  apply Classical.byContradiction
+  intro hx
+  have : u.objs[x]? = none := List.getElem?_eq_none (by omega)
+  simp [Store.obj, this] at h
+
 /-- **converse of the premise**: a write before the copy guard does change the input's node table. -/
 theorem runTrace_violation (s : Store) (x r : Ref) (hn : (s.obj x).nodes = some r) (hr : r < s.data.length) :
     ∀ (t : List Ev), noWriteBeforeGuard t = false → s.rd r < (runTrace bump t s x false).1.rd r := by
   unfold runTrace
-  suffices h : ∀ (t : List Ev) (u : Store), u.objs = s.objs → r < u.data.length →
+  suffices h : ∀ (t : List Ev) (u : Store), (u.obj x).nodes = some r → r < u.data.length →
       noWriteBeforeGuard t = false → u.rd r < (t.foldl (runEv bump x false) (u, x)).1.rd r from
-    fun t ht => h t s rfl hr ht
+    fun t ht => h t s hn hr ht
   intro t; induction t with
   | nil => intro u _ _ h; simp [noWriteBeforeGuard] at h
   | cons e t ih =>
-    intro u hu hru h
-    have hnu : (u.obj x).nodes = some r := by unfold Store.obj; rw [hu]; exact hn
+    intro u hnu hru h
     simp only [List.foldl_cons]
     cases e with
     | guard => simp [noWriteBeforeGuard] at h
@@ -1233,11 +1274,22 @@ theorem runTrace_violation (s : Store) (x r : Ref) (hn : (s.obj x).nodes = some 
       omega
     | writeIn =>
       obtain ⟨h1, h2, h3⟩ := step_bump_own hnu hru
-      have := ih (step u x (.wr .nodes bump)) (h2.trans hu) h3 (by simpa [noWriteBeforeGuard] using h)
+      have hn' : ((step u x (.wr .nodes bump)).obj x).nodes = some r := by
+        unfold Store.obj; rw [h2]; exact hnu
+      have := ih (step u x (.wr .nodes bump)) hn' h3 (by simpa [noWriteBeforeGuard] using h)
       simp only [runEv] at this ⊢
       omega
-    | delegate => exact ih u hu hru (by simpa [noWriteBeforeGuard] using h)
-    | branch => exact ih u hu hru (by simpa [noWriteBeforeGuard] using h)
+    | delegate => exact ih u hnu hru (by simpa [noWriteBeforeGuard] using h)
+    | branch => exact ih u hnu hru (by simpa [noWriteBeforeGuard] using h)
+    | retIn => exact ih u hnu hru (by simpa [noWriteBeforeGuard] using h)
+    | lostDelegate =>
+      have he := lostDelegate_ext bump u x
+      have hn' : ((call [.wr .nodes bump] u x false).1.obj x).nodes = some r := by
+        rw [he.obj (valid_of_nodes hnu)]; exact hnu
+      have := ih _ hn' (Nat.lt_of_lt_of_le hru he.dlen) (by simpa [noWriteBeforeGuard] using h)
+      simp only [runEv] at this ⊢
+      rw [he.rd hru] at this
+      exact this
 
 /-! ## list cells are never touched by neuron-level code -/
 
